@@ -126,10 +126,12 @@ def _worker_init():
 
     warnings.filterwarnings("ignore")
     logging.disable(logging.CRITICAL)
-    try:  # `kill -USR1 <worker pid>` dumps its Python stack (diagnosing stragglers)
+    try:  # debugging aid (only with VERIF_PROGRESS): `kill -USR1 <worker pid>` dumps its Python stack (diagnosing stragglers)
         import faulthandler
         import signal
 
+        if not os.environ.get("VERIF_PROGRESS"):
+            raise RuntimeError("off")
         faulthandler.register(signal.SIGUSR1, file=open(os.path.join("/tmp", f"vf_stack_{os.getpid()}.log"), "w"), all_threads=False)
     except Exception:
         pass
